@@ -229,7 +229,8 @@ def cases_B(tier):
     sel = range(n) if tier == "thorough" else sorted(set(list(range(0, n, 4)) + [0, 1, n - 1]))
     for i in sel:
         for smap, wmap in itertools.product(SEASON_MAPS, WEEKDAY_MAPS):
-            out.append({"part": "B", "layout": layouts[i], "smap": smap, "wmap": wmap})
+            for zone in ("America/Chicago", "Australia/Sydney"):  # west and east of UTC: the calendar is the LOCAL one
+                out.append({"part": "B", "layout": layouts[i], "smap": smap, "wmap": wmap, "zone": zone})
     return out
 
 
@@ -247,7 +248,7 @@ def run_B(case):
 
     s = DailySettings(**s_over).model_dump()
     viol = []
-    zone = "America/Chicago"
+    zone = case.get("zone", "America/Chicago")
     m = em.DailyModel.from_dict(dd.document(subs, s, tz=zone))
     idx = ds.local_days("2023-01-01", 731, zone)
     data = em.DailyReportingData(pd.DataFrame({"temperature": 50.0 + (np.arange(731) % 30)}, index=idx), is_electricity_data=True)
@@ -286,11 +287,12 @@ FITS = [
     dict(name="both_regimes", usage=dict(noise=0.03, seed=4, weekend_factor=0.6, summer_factor=1.5)),
     dict(name="noisy", usage=dict(noise=0.2, seed=5)),
     dict(name="short330", usage=dict(noise=0.05, seed=6, weekend_factor=1.4), days=330),
+    dict(name="berlin_weekend", usage=dict(noise=0.03, seed=2, weekend_factor=1.6), zone="Europe/Berlin"),
 ]
 
 
 def cases_C(tier):
-    fits = FITS if tier == "thorough" else FITS[:4]
+    fits = FITS if tier == "thorough" else FITS[:4] + FITS[-1:]
     out = [{"part": "C", "fit": f["name"], "profile": "current"} for f in fits]
     if tier == "thorough":
         out += [{"part": "C", "fit": f["name"], "profile": "dev_all_splits"} for f in FITS[:4]]
@@ -301,7 +303,8 @@ def run_C(case):
     import opendsm.eemeter as em
 
     spec = next(f for f in FITS if f["name"] == case["fit"])
-    df = ds.daily_frame(start="2021-01-01", days=spec.get("days", 365), tz="America/Chicago", climate="continental", wseed=7, **spec["usage"])
+    df = ds.daily_frame(start="2021-01-01", days=spec.get("days", 365), tz=spec.get("zone", "America/Chicago"), climate="continental", wseed=7,
+                        **spec["usage"])
     settings = None
     if case["profile"] == "dev_all_splits":
         settings = make_settings((1, 1, 1, 1), 0, "default", "default")
